@@ -323,6 +323,9 @@ let check_call (f : string) (a : sx list) : string option =
   | "vclock", "cmp", [c; o; r] -> cmp (=) show_ord (vcmp (vc_sx c) (vc_sx o)) (ord_sx r)
   | "vclock", "concurrent", [c; o; r] -> cmpb (vconcurrent (vc_sx c) (vc_sx o)) (bool_sx r)
   | "vclock", "validate_op", [c; d; r] -> cmp (=) show_range (vvalidate_op (vc_sx c) (dot_sx d)) (range_sx r)
+  | "vclock", "from_dot", [d; r] -> cmpvc (vfrom_dot (dot_sx d)) (vc_sx r)
+  | "vclock", "dot", [c; x; d] -> cmp (=) show_dot (vdot (vc_sx c) (n_sx x)) (dot_sx d)
+  | "dot", "inc", [d; r] -> cmp (=) show_dot (dinc (dot_sx d)) (dot_sx r)
   | "vclock", "from_iter", [ds; r] -> cmpvc (vfrom_iter (List.map dot_sx (seq ds))) (vc_sx r)
   | "dot", "cmp", [d; e; r] -> cmp (=) show_ord (dcmp (dot_sx d) (dot_sx e)) (ord_sx r)
   (* ---- counters *)
